@@ -71,6 +71,13 @@ var respPlaces = []respPlace{
 	{"page-in-dot-directory", func(n, i int, fault string) (map[string]string, string) {
 		return map[string]string{".drafts/post.tw": sentinelStmts(n, i, fault), "page.tw": "PAGE-SENTINEL-other"}, ".drafts/post"
 	}},
+	{"after-nil-insert-arguments", func(n, i int, fault string) (map[string]string, string) {
+		// inserts whose arguments evaluate to nil (a nil in the data, an index out of range, a missing character)
+		return map[string]string{
+			"layouts/main.tw": "PAGE-SENTINEL-layout <@reserve(\"title\")|@reserve(\"sub\")|@reserve(\"third\")|@reserve(\"body\")> PAGE-SENTINEL-layout-end",
+			"page.tw":         "@use(\"~main\")@insert(\"title\", nothing)@insert(\"sub\", rows[9])@insert(\"third\", \"\".at(0))@insert(\"body\")" + sentinelStmts(n, i, fault) + "@end",
+		}, "page"
+	}},
 	{"inside-loop-pass", func(n, i int, fault string) (map[string]string, string) {
 		// fails in pass i of n
 		return map[string]string{"page.tw": fmt.Sprintf("PAGE-SENTINEL-head\n@each(k in rows)PAGE-SENTINEL-row {{ k }}\n@if(k == %d)%s@end@end PAGE-SENTINEL-tail", i, fault)}, "page"
@@ -162,6 +169,8 @@ var respFaults = []string{"{{ 1 / zero }}\n", "{{ MISSING_IDENT_SENTINEL }}\n", 
 	// not used as a fault)
 	"{{ nv = rows.slice(9).rand() }}PAGE-SENTINEL-mid{{ nv = \"s\" }}\n", "{{ nv = nil }}PAGE-SENTINEL-mid{{ nv = 1 }}\n", "@each(v in [\"a\".at(4), 7])PAGE-SENTINEL-inner@end\n", "{{ nv = user.Missing9 }}\n",
 	"{{ [].contains() }}\n", "{{ rows.slice(9).contains() }}\n", "{{ \"\".contains() }}\n", "{{ rows.slice(9).join(1, 2) }}\n", "{{ [].slice(\"x\") }}\n", "{{ \"\".truncate() }}\n", "{{ [].append() }}\n",
+	// an argument of the wrong kind behind a first argument that already decides the result
+	"{{ rows.slice(9, \"10\") }}\n", "{{ rows.slice(4, nil) }}\n", "{{ rows.slice(\"0\") }}\n", "{{ \"\".truncate(\"x\") }}\n", "{{ \"abc\".at(\"1\") }}\n", "{{ \"\".repeat(\"2\") }}\n", "{{ [].join(1) }}\n",
 	// a name of the page re-assigned with another type two, three and four blocks further in
 	"{{ tt = 0 }}@each(r in rows)PAGE-SENTINEL-inner@if(r > 1){{ tt = \"many\" }}@end@end\n", "{{ tt = 0 }}@if(true)@if(true)@if(true){{ tt = 1.5 }}@end@end@end\n",
 	"{{ tt = \"s\" }}@each(r in rows)@for(k = 0; k < 1; k++)@if(r == 3)@each(q in [1]){{ tt = [1] }}@end@end@end@end\n", "{{ tt = [1] }}@if(zero)x@else@if(zero)y@else{{ tt = {a: 1} }}@end@end\n",
@@ -502,7 +511,55 @@ func init() {
 						}
 					}
 				}}
-			return []core.Section{random, sequences, largePages, {Name: "response-matrix", Exhaustive: true, N: len(combos) * reps,
+			// the custom error page calls a function that is registered only after the first failure: from then on the page works
+			// and is what a failing Response writes (and before that the body is empty)
+			becomes := core.Section{Name: "error-page-becomes-usable", Exhaustive: true, N: 4,
+				Run: func(c *core.Ctx, i int) {
+					fname := fmt.Sprintf("late%d_%d", i, c.Seed)
+					files := map[string]string{"page.tw": "PAGE-SENTINEL-0 {{ MISSING_IDENT_SENTINEL }}", "other.tw": "PAGE-SENTINEL-1 {{ 1 / zero }}", "errors/oops.tw": "<custom {{ \"page\"." + fname + "() }}>"}
+					dir := "c17late-DIRSENTINEL"
+					if err := writeFilesFresh(dir, files); err != nil {
+						c.Inconclusive(err.Error())
+						return
+					}
+					textwire.VerifResetConfig()
+					var tpl *textwire.Template
+					var lerr error
+					c.Eval(1)
+					if c.Guard(func() { tpl, lerr = textwire.NewTemplate(&config.Config{TemplateDir: dir, TemplateExt: ".tw", ErrorPagePath: "errors/oops"}) }) {
+						return
+					}
+					c.Nontrivial(fmt.Sprint("late", i))
+					if lerr != nil || tpl == nil {
+						c.Violation("response:late:load-failed", fmt.Sprintf("%v", lerr), nil)
+						return
+					}
+					respond := func(page string) (string, error) {
+						rec := newRecorder()
+						var rerr error
+						c.Eval(1)
+						c.Guard(func() { rerr = tpl.Response(rec, page, map[string]any{"zero": 0}) })
+						return rec.body.String(), rerr
+					}
+					pages := []string{"page", "other", "ghost", "page"}
+					for k := 0; k <= i; k++ {
+						if body, rerr := respond(pages[k%4]); rerr == nil || body != "" {
+							c.Violation("response:late:before", fmt.Sprintf("before the function exists the custom page fails: the body must be empty and an error returned; got (%q, %v)", clipS(body, 200), rerr), nil)
+							return
+						}
+					}
+					if err := textwire.RegisterStrFunc(fname, func(s string, a ...any) string { return "error " + s }); err != nil {
+						c.Inconclusive(err.Error())
+						return
+					}
+					for k := 0; k < 3; k++ {
+						if body, rerr := respond(pages[(k+i)%4]); rerr == nil || body != "<custom error page>" {
+							c.Violation("response:late:after", fmt.Sprintf("once the function is registered the custom page works: a failing Response must write it; got (%q, %v) after %d earlier failures", clipS(body, 200), rerr, i+1), nil)
+							return
+						}
+					}
+				}}
+			return []core.Section{random, sequences, largePages, becomes, {Name: "response-matrix", Exhaustive: true, N: len(combos) * reps,
 				Run: func(c *core.Ctx, i int) {
 					// a seeded permutation, so that configurations alternate inside each worker
 					perm := core.NewRng("C17-perm", c.Seed, i/len(combos)).Perm(len(combos))
@@ -552,7 +609,7 @@ func init() {
 						c.Violation("response:load-failed", fmt.Sprintf("the tree did not load: %v", lerr), desc)
 						return
 					}
-					data := map[string]any{"zero": 0, "rows": []int{0, 1, 2, 3}, "user": map[string]any{"name": "n", "Id": 3}}
+					data := map[string]any{"zero": 0, "rows": []int{0, 1, 2, 3}, "user": map[string]any{"name": "n", "Id": 3}, "nothing": nil}
 					c17Current = tpl
 					rec := newRecorder()
 					var rerr error
